@@ -177,3 +177,18 @@ Theorem record_write_fixpoint_partial : forall specs vals l, write_fields specs 
   write_fields specs (cvals specs (cvals specs vals)) = write_fields specs (cvals specs vals).
 Proof. exact record_rewrite_fixpoint. Qed.
 Print Assumptions record_write_fixpoint_partial.
+
+(** ** the same with the mesh in a separate ASCII file: main file, then ELEME and CONNE from the MESH file *)
+Theorem t2data_read_write_meshfile_partial : forall d ks d' fs,
+  write_files (mk_wcfg 1 None None) d = Ok (d', fs) ->
+  update_sections d = sections d -> main_secs d = map s2l ks -> xprec d = [] -> is_end (end_keyword d) = true ->
+  title_ok d = true -> chain_ok d ks (start_state d) = true -> forallb (fun k => negb (k =? "ELEME")) ks = true ->
+  let d2 := set_end_keyword (final d ks (start_state d)) (end_keyword d) in
+  forallb (wf_block T0 (rocks d2)) (blocks d) = true -> forallb (wf_conn T0 (canon_blocks T0 (blocks d))) (conns d) = true ->
+  read_files fs = Ok (mesh_state d d2).
+Proof. exact read_write_meshfile. Qed.
+Print Assumptions t2data_read_write_meshfile_partial.
+Theorem t2data_read_write_meshfile_hypotheses_met :
+  hyps_mesh_ok example_autough2 (no_mesh example_autough2_order) = true /\ hyps_mesh_ok example_tough2 (no_mesh example_tough2_order) = true.
+Proof. exact (conj example_autough2_mesh_ok example_tough2_mesh_ok). Qed.
+Print Assumptions t2data_read_write_meshfile_hypotheses_met.
